@@ -2,17 +2,22 @@
 from . import compile_common as cc
 
 LEVEL_TEXT = (
-    "Lean 4 theorems over the model of compile_redeemers: every spend redeemer comes from an input block that carries "
-    "one, holds that block's data, and its index is the position of one of the block's UTxOs in the sorted distinct "
-    "body inputs; the final map contains exactly the entries produced for spend, mint, burn and withdrawal blocks "
+    "Lean 4 theorems over the model of compile_redeemers and of the whole compile: every redeemer of a successfully "
+    "compiled transaction is attached to the item it was written for and carries that block's data "
+    "(C08_redeemers_sound) - a spend redeemer comes from an input block that carries one and its index is the position "
+    "of one of the block's UTxOs in the sorted distinct body inputs; a mint redeemer comes from a mint or burn block "
+    "that carries one and its index is the position, among the sorted distinct minted policies, of a policy read from "
+    "one of that block's asset entries; a reward redeemer comes from a withdrawal directive that carries one and its "
+    "index is the position of that directive's reward account among the withdrawal keys; the final map contains exactly the entries produced for spend, mint, burn and withdrawal blocks "
     "(nothing invented, nothing lost) and two different redeemers on one key make compilation fail rather than one "
     "replacing the other. Per case the expected map is rebuilt from the template by sorting items as the ledger does "
     "and compared with the witness set read from the real payload."
 )
-LEVEL_NOTE = cc.MODEL_NOTE + ". Index soundness is proved for spend items; mint and reward indices are tied by correspondence and the per-case oracle."
+LEVEL_NOTE = cc.MODEL_NOTE + ". That the ledger sorts items the way the model does (inputs by (txid, index), policies and reward accounts bytewise) is the ledger's rule, checked per case against what pallas decodes."
 PROP = "C08"
 TARGETS = ["Tx3Proofs.C08"]
-THEOREMS = ["Tx3.indexOf?_get", "Tx3.C08_spend_sound", "Tx3.insertRedeemer_keeps", "Tx3.insertRedeemer_present", "Tx3.C08_map_exact"]
+THEOREMS = ["Tx3.indexOf?_get", "Tx3.C08_spend_sound", "Tx3.insertRedeemer_keeps", "Tx3.insertRedeemer_present", "Tx3.C08_map_exact",
+            "Tx3.policies_sound", "Tx3.C08_mint_sound", "Tx3.C08_reward_sound", "Tx3.C08_redeemers_sound"]
 ASSUMPTIONS = [cc.MODEL_NOTE, "redeemer data equality in the model is PData's structural ==",
                "txids/indices/policies are drawn from small pools so that all relative orders occur"]
 
